@@ -28,6 +28,7 @@ YACC_FILE = None
 _ROOTS = ()
 _THIS_FILE = os.path.abspath(__file__)
 _HOSTS_FILE = os.path.join(os.path.dirname(_THIS_FILE), "host", "shorthand_hosts.py")
+WATCH = {}    # code object -> tag, observed by Engine.on_watch
 HOSTS = None  # set by init(with_hosts=True): shorthand hosts for sa_core/sa_orm/django ops
 
 
@@ -48,9 +49,13 @@ def init(with_hosts=False):
         LEX_FILE = os.path.abspath(lex.__file__)
         YACC_FILE = os.path.abspath(yacc.__file__)
         _ROOTS = (CORE["pkg_dir"] + os.sep, CORE["sly_dir"] + os.sep)
+        import odata_query.visitor as _v
+        WATCH[_v.NodeVisitor.visit.__code__] = "visit"
     if with_hosts and HOSTS is None:
         from .host import shorthand_hosts
         HOSTS = shorthand_hosts.build()
+        import odata_query.django.django_q as _dq
+        WATCH[_dq.AstToDjangoQVisitor.visit.__code__] = "visit"
     return CORE
 
 
@@ -67,18 +72,26 @@ def canon_token(tok):
             getattr(tok, "index", None), getattr(tok, "lineno", None))
 
 
+def _canon_attr(v):
+    if v is None or isinstance(v, (bool, int, float, str)):
+        return v
+    if hasattr(v, "type") and hasattr(v, "value") and hasattr(v, "index"):
+        return ("token",) + canon_token(v)
+    if isinstance(v, (set, frozenset)):
+        return ("set", tuple(sorted(repr(x) for x in v)))    # a set has no order
+    if isinstance(v, (list, tuple)):
+        return (type(v).__name__,) + tuple(_canon_attr(x) for x in v)
+    if isinstance(v, dict):
+        return ("dict", tuple(sorted((repr(k), repr(_canon_attr(x))) for k, x in v.items())))
+    return repr(v)
+
+
 def canon_exc(e):
-    ex = CORE["exceptions"]
-    name = type(e).__name__
-    if isinstance(e, ex.ParsingException):
-        return ("exc", name, canon_token(e.token), bool(e.eof))
-    if isinstance(e, ex.TokenizingException):
-        return ("exc", name, canon_token(e.token))
-    if isinstance(e, ex.ArgumentCountException):
-        return ("exc", name, e.function_name, e.exp_min_args, e.exp_max_args, e.n_args_given)
-    if isinstance(e, ex.UnknownFunctionException):
-        return ("exc", name, e.function_name)
-    return ("exc", name, str(e))
+    """Everything a caller can observe of a raised exception: class, message and the
+    public attributes (token, eof, function name, argument counts, ...)."""
+    attrs = tuple(sorted((k, _canon_attr(v)) for k, v in vars(e).items()
+                         if not k.startswith("__")))
+    return ("exc", type(e).__name__, str(e), attrs)
 
 
 def canon_ast(node):
@@ -279,20 +292,39 @@ def interesting_positions(events):
     return {k: sorted({p for p in v if 1 <= p <= n}) for k, v in out.items()}
 
 
+def dry_info(op, opcode):
+    ev = DryTrace(opcode).run(op)
+    return (len(ev), interesting_positions(ev))
+
+
+def oracle(req):
+    """Handler of the pristine zygote: reference outcomes and dry-run traces are both
+    computed in a process that never did anything else with the library."""
+    if req[0] == "dry":
+        import json
+        return dry_info(json.loads(req[1]), req[2])
+    return reference(req)
+
+
 class DryCache:
-    def __init__(self):
-        self.cache = {}
+    """Dry-run info per op, computed by the pristine oracle (so that generating a plan
+    never executes library code in the process that is about to run the plan)."""
+
+    def __init__(self, pristine):
+        self.pristine = pristine
+
+    @staticmethod
+    def _req(op, opcode):
+        import json
+        core = {k: op[k] for k in ("kind", "text", "k", "aliases") if k in op}
+        return ("dry", json.dumps(core, sort_keys=True), bool(opcode))
+
+    def prefetch(self, ops, opcode):
+        self.pristine.ask_many([self._req(op, opcode) for op in ops])
 
     def get(self, op, opcode):
-        key = (opcode, op["kind"], op.get("text"), op.get("k"),
-               tuple(tuple(a) for a in op.get("aliases", ())))
-        v = self.cache.get(key)
-        if v is None:
-            ev = DryTrace(opcode).run(op)
-            v = self.cache[key] = (len(ev), interesting_positions(ev))
-            if len(self.cache) > 20000:
-                self.cache.clear()
-        return v
+        n, inter = self.pristine.ask(self._req(op, opcode))
+        return n, inter
 
 
 # --------------------------------------------------------------------------- run state
@@ -308,6 +340,7 @@ class RunState:
         self.in_action = [False] * len(plan["clients"])   # for parked clients
         self.in_parse = [False] * len(plan["clients"])
         self.last_parse = [None] * len(plan["clients"])   # outcome of the latest Parser.parse
+        self.used_ast = [None] * len(plan["clients"])     # AST handed to the visitor
         self.limbo = []          # weakrefs to the cycle cells of lingering aborts
         self.streams = {}        # key -> info of tracked suspended token streams
         self.stream_seq = 0
@@ -403,14 +436,14 @@ class Engine:
             if any(st.in_parse[c] for c in range(sim.n) if c != cid and sim.in_op[c]):
                 st.probes["two_clients_inside_parse"] += 1
 
-    def on_watch(self, sim, frame, event, arg):
-        """return / exception event of yacc.Parser.parse in the running client: what
-        the (possibly library-internal) parse produced."""
+    def on_watch(self, sim, tag, frame, event, arg):
+        """Which AST a shorthand handed to its visitor (first call of NodeVisitor.visit
+        in the op) - however it got it (its own parse call, a subclass override, a
+        cache)."""
         cid = sim.current
-        if event == "exception":
-            self.st.last_parse[cid] = canon_exc(arg[1])
-        elif arg is not None:
-            self.st.last_parse[cid] = canon_ast(arg)
+        if tag == "visit" and event == "call" and self.st.used_ast[cid] is None:
+            node = frame.f_locals.get("node")
+            self.st.used_ast[cid] = canon_ast(node)
 
     def on_no_progress(self, sim, cur_op):
         cid, opi, op = cur_op
@@ -582,6 +615,7 @@ class Engine:
         sim.note("op-start", cid, op["id"], kind, li, pj)
         try:
             st.last_parse[cid] = None
+            st.used_ast[cid] = None
             sim.begin_op(cid, opi, op, dry_n)
             try:
                 outcome, live = run_body(op, lexer, parser, keep)
@@ -613,7 +647,9 @@ class Engine:
             req = op_request(op)
             expected = self.refs[req]
             if kind in ("sa_core", "sa_orm", "django"):
-                got = st.last_parse[cid]   # what the shorthand's internal parse produced
+                # the AST the shorthand worked with; if it never got as far as its
+                # visitor, the exception it raised (its parse stage failed)
+                got = st.used_ast[cid] if st.used_ast[cid] is not None else outcome
             else:
                 got = outcome
             st.outcomes[op["id"]] = got
@@ -656,7 +692,7 @@ def execute(plan, pristine, dry, deep=False, timeout=60.0):
     eng = Engine(plan, refs, dry, opcode)
     st = eng.st
     sim = Sim(plan, traced, eng.run_op, eng.fire, engine=eng, deep_log=deep,
-              op_frame_files=[_THIS_FILE, _HOSTS_FILE], watch_code=PARSE_CODE)
+              op_frame_files=[_THIS_FILE, _HOSTS_FILE], watch_code=WATCH)
     gc_was = gc.isenabled()
     gc.disable()
     try:
@@ -804,6 +840,7 @@ def gen_plan(seed, run, pool, dry, shorthand=False, max_clients=4, max_ops=5):
     np_ = rng.randint(1, 3)
     opcode = rng.random() < 0.12
     clients = []
+    used_texts = []
     for c in range(nclients):
         nops = rng.randint(1, max_ops)
         ops = []
@@ -828,6 +865,12 @@ def gen_plan(seed, run, pool, dry, shorthand=False, max_clients=4, max_ops=5):
                 op["text"] = gen_probe_for_aliases(rng, op["aliases"])
             else:
                 op["text"] = rng.choice(pool["bad"] if bad else pool["valid"])
+                if used_texts and rng.random() < 0.22:
+                    # the same string again, or one that collides with it under sloppy
+                    # normalisation (case, blanks): what a cache keyed too coarsely needs
+                    prev = rng.choice(used_texts)
+                    op["text"] = prev if rng.random() < 0.6 else corpus.near_duplicate(rng, prev)
+                used_texts.append(op["text"])
             if op["kind"] == "tokenize_partial":
                 op["k"] = rng.randint(1, 6)
             if op["kind"] in ("parse", "tokenize_partial", "tokenize_all", "rewriter"):
@@ -848,6 +891,7 @@ def gen_plan(seed, run, pool, dry, shorthand=False, max_clients=4, max_ops=5):
     n_gc = rng.choice([1, 1, 2, 3]) if faulty else 0
     n_pre = 0 if nclients == 1 else rng.choice([0, 1, 2, 2, 3, 4, 6])
     lens = {}
+    dry.prefetch(flat, opcode)
     for op in flat:
         lens[op["id"]] = dry.get(op, opcode)
 
@@ -1000,13 +1044,17 @@ def worker_setup(opts):
     init(with_hosts=bool(opts.get("shorthand")))
     from .sched import warm_up_opcode_tracing
     warm_up_opcode_tracing()
-    _W["pristine"] = pristine.Pristine(reference)
-    _W["dry"] = DryCache()
+    _W["pristine"] = pristine.Pristine(oracle)
+    _W["dry"] = DryCache(_W["pristine"])
     _W["pools"] = {}
     _W["opts"] = opts
     gc.collect()
     gc.freeze()
     gc.disable()
+
+
+def get_pristine():
+    return _W["pristine"]
 
 
 def make_plan(seed, run, opts=None):
